@@ -328,6 +328,70 @@ func main() {
 
 		// a destination that fails (once, or from some call on): either an API call reports
 		// an error or the output is intact - never silence over a stream with a hole in it
+		// One Writer serves many messages (Reset between them). Whatever the previous message
+		// was and however it ended - Flush, Close, both, on a failing destination, nothing written
+		// at all - the next message's output followed by the tail is a DEFLATE stream of its own
+		// that inflates to exactly that message, the empty message included.
+		r.Part("E1c-writer-reused-across-messages", func(t *explore.T) {
+			small := payloads(false)
+			endings := []string{"Flush", "Close", "Flush+Close", "Flush+Flush", "none", "Flush-on-failing-destination"}
+			for _, c := range compressors() {
+				for _, first := range small {
+					for _, e1 := range endings {
+						for _, second := range small {
+							for _, e2 := range endings[:4] {
+								c, first, e1, second, e2 := c, first, e1, second, e2
+								t.Do(func() string {
+									return fmt.Sprintf("compressor=%s first=%s ending=%s; Reset; second=%s ending=%s", c.name, first.name, e1, second.name, e2)
+								}, func() *explore.Fail {
+									d1 := env.NewDst()
+									if e1 == "Flush-on-failing-destination" {
+										d1.FailAt = 0
+									}
+									w := wsflate.NewWriter(d1, c.mk)
+									w.Write(first.data)
+									for _, e := range strings.Split(e1, "+") {
+										switch e {
+										case "Flush", "Flush-on-failing-destination":
+											w.Flush()
+										case "Close":
+											w.Close()
+										}
+									}
+									d := env.NewDst()
+									w.Reset(d)
+									if n, err := w.Write(second.data); err != nil || n != len(second.data) {
+										return explore.Failf("write-error-after-Reset", "n=%d err=%v", n, err)
+									}
+									for _, e := range strings.Split(e2, "+") {
+										var err error
+										if e == "Flush" {
+											err = w.Flush()
+										} else {
+											err = w.Close()
+										}
+										if err != nil {
+											return explore.Failf("ending-error-after-Reset:"+e2, "%v", err)
+										}
+									}
+									full := append(append([]byte{}, d.Bytes()...), tail...)
+									out, _, err := refmodel.Inflate(full)
+									if err != nil {
+										return explore.Failf("second-message-does-not-inflate:"+e2, "%x: %v", full, err)
+									}
+									if !bytes.Equal(out, second.data) {
+										return explore.Failf("second-message-inflates-to-other-bytes:"+e2, "got %d bytes want %d", len(out), len(second.data))
+									}
+									return readBack(d.Bytes(), second.data, deliveries(false)[0])
+								})
+							}
+						}
+					}
+				}
+			}
+			t.Outcome("standalone")
+		})
+
 		r.Part("E1b-writer-failing-destination", func(t *explore.T) {
 			ps := payloads(false)
 			ps = append(ps, payload{"3000-mixed", append(lcg(1500, 3), bytes.Repeat([]byte("abc"), 500)...)})
